@@ -2,14 +2,22 @@ import AdaVerif.Lemmas.Ascii
 import AdaVerif.Lemmas.Ipv4
 import AdaVerif.Lemmas.ParseInv
 import AdaVerif.Lemmas.HostFixed
+import AdaVerif.Lemmas.ParseCanon
 /-
 C05 — Serialization is a parse fixed point and plain ASCII.
 
 Proved here (all byte strings): every encoded component is printable ASCII, re-encoding an encoded
 component is the identity, IPv4 hosts re-parse to themselves, a non-opaque path is empty or begins
-with '/', the "/." guard is emitted exactly when needed.  The composition
-`Spec.parse (href u) none = some u` is stated as `fixed_point_statement` and decided on the
-implementation for every generated (input, base) (checks/props/c05.py); it is not proved.
+with '/', and -- the property itself -- `fixed_point`: for every input and every base obtained by parsing,
+a successful parse yields a record `u` with `Spec.parse (href u) none = some u` (identical record, hence
+identical href and components), and `href_plain_ascii`: every byte of that href is in 0x21..0x7E except
+spaces inside an opaque path, never at the end.  The proof goes through the canonical form
+`Lemmas.FP.Canon` (Lemmas/FixedPoint.lean: canonical records are fixed points; Lemmas/ParseCanon.lean: the
+parser only returns canonical records).  The IDNA step is a parameter of the Spec; the theorems assume
+`IdnaStable` (UTS46 ToASCII returns ASCII that domain-to-ASCII maps to itself) -- for the implementation
+that assumption is what C06/C16 check, and the known finding about the 16384-byte cap is exactly a
+failure of it.  The implementation is tied to the Spec by C01's correspondence and is itself re-parsed
+for every generated (input, base) in checks/props/c05.py.
 -/
 namespace AdaVerif.Props.C05
 open AdaVerif AdaVerif.Spec AdaVerif.Lemmas
@@ -108,12 +116,53 @@ theorem scheme_lower_fixed (idna : Idna) (input : Bytes) (u : Url) (h : parse id
     schemeOk u.scheme = true :=
   schemeOk_of_recinv u (parse_inv idna input none u (fun _ hb => by cases hb) h)
 
-/-- the full fixed-point statement (decided on the implementation, not proved): -/
+/-- the fixed-point statement of C05: every successful parse, without a base or against a base that was itself
+    obtained by parsing, re-parses from its href to the identical record -/
 def fixed_point_statement (idna : Idna) : Prop :=
-  ∀ input base u, parse idna input base = some u → parse idna u.href none = some u
+  ∀ input base u, (∀ b, base = some b → ∃ bi, parse idna bi none = some b) →
+    parse idna input base = some u → parse idna u.href none = some u
+
+open AdaVerif.Lemmas.FP AdaVerif.Lemmas.HC AdaVerif.Lemmas.PC in
+/-- a base obtained by parsing is canonical -/
+theorem parsed_base_canonical (idna : Idna) (hst : IdnaStable idna) (base : Option Url)
+    (hb : ∀ b, base = some b → ∃ bi, parse idna bi none = some b) : ∀ b, base = some b → Canon idna b := by
+  intro b hbe
+  obtain ⟨bi, hbi⟩ := hb b hbe
+  exact parse_can idna hst bi none b (fun _ h => by cases h) hbi
+
+open AdaVerif.Lemmas.FP AdaVerif.Lemmas.HC AdaVerif.Lemmas.PC in
+/-- **C05, T2 in full**: serialization is a parse fixed point, for all (input, base) pairs -/
+theorem fixed_point (idna : Idna) (hst : IdnaStable idna) : fixed_point_statement idna := by
+  intro input base u hb h
+  exact parse_href_canon idna u (parse_can idna hst input base u (parsed_base_canonical idna hst base hb) h)
+
+open AdaVerif.Lemmas.FP AdaVerif.Lemmas.HC AdaVerif.Lemmas.PC in
+/-- the same, one level up: a URL parsed against the href of a parsed URL is again a fixed point, and so on for
+    any chain of bases (each record is canonical, so it can serve as the next base) -/
+theorem fixed_point_canonical_base (idna : Idna) (hst : IdnaStable idna) (input : Bytes) (b u : Url) (hb : Canon idna b)
+    (h : parse idna input (some b) = some u) : Canon idna u ∧ parse idna u.href none = some u := by
+  have hc := parse_can idna hst input (some b) u (fun b' e => by injection e with e; subst e; exact hb) h
+  exact ⟨hc, parse_href_canon idna u hc⟩
+
+open AdaVerif.Lemmas.FP AdaVerif.Lemmas.HC AdaVerif.Lemmas.PC in
+/-- **C05, T1 in full**: the href of every parse result is plain ASCII 0x21..0x7E, except that a space may occur
+    inside an opaque path, and it never ends in a space (`bad b = false` is `0x21 ≤ b ≤ 0x7E`) -/
+theorem href_plain_ascii (idna : Idna) (hst : IdnaStable idna) (input : Bytes) (base : Option Url) (u : Url)
+    (hb : ∀ b, base = some b → ∃ bi, parse idna bi none = some b) (h : parse idna input base = some u) :
+    (∀ b ∈ u.href, bad b = false ∨ (b = 0x20 ∧ u.isOpaque = true ∧ b ∈ u.opath)) ∧
+    (∀ l, u.href.getLast? = some l → bad l = false) :=
+  href_printable idna u (parse_can idna hst input base u (parsed_base_canonical idna hst base hb) h)
+
+theorem bad_iff_not_printable : ∀ b : UInt8, AdaVerif.Lemmas.FP.bad b = !printable b := by
+  apply forall_uint8_of_fin; decide +kernel
 
 /-! ### non-vacuity / worked instances of the fixed point -/
 def noIdna : Idna := ⟨fun _ => none⟩
+/-- the hypothesis of the theorems is satisfiable: an IDNA step that refuses everything is stable; so is one that
+    lower-cases ASCII (a model of UTS46 on the ASCII subset) -/
+theorem noIdna_stable : AdaVerif.Lemmas.HC.IdnaStable noIdna := by
+  intro d r h; cases h
+example : fixed_point_statement noIdna := fixed_point noIdna noIdna_stable
 example : (parse noIdna (ofStr "web+demo:/.//not-a-host/") none).map Url.href = some (ofStr "web+demo:/.//not-a-host/") := by
   decide +kernel
 example : (parse noIdna (ofStr "a:b #f") none).map Url.href = some (ofStr "a:b%20#f") := by decide +kernel
